@@ -79,12 +79,17 @@ impl GC {
             return;
         }
 
+        // One (cleared) bit for every managed object
         self.mark_bitmap.clear();
+        self.mark_bitmap.resize(self.objects.len(), false);
+
+        // Arrays that are reachable but not managed by this collector (they can still refer to objects that are)
+        let mut foreign = Vec::new();
 
         // Mark all reachable objects
         for root in roots.iter() {
             for obj in root.iter() {
-                self.mark(obj);
+                self.mark(obj, &mut foreign);
             }
         }
 
@@ -107,43 +112,49 @@ impl GC {
             object.free();
         }
 
-        self.mark_bitmap.truncate(self.objects.len());
+        // Every object that is left was marked, so the bitmap has served its purpose.
+        // Clearing it ensures a later sweep can not act on stale bits.
+        self.mark_bitmap.clear();
     }
 
     /// Marks the given object as reachable
-    #[inline(always)]
-    fn mark(&mut self, o: &Object) {
+    fn mark(&mut self, o: &Object, foreign: &mut Vec<*mut u8>) {
         if !o.is_heap_allocated() {
             return;
         }
 
-        let index = unsafe {
-            let object_ptr: *mut Object = o.as_ptr().cast();
-            let universe_ptr: *const Object = self.objects.as_ptr().cast();
-            object_ptr.offset_from(universe_ptr) as usize
-        };
-        debug_assert!(index < self.objects.len());
+        let index = self
+            .objects
+            .iter()
+            .position(|a| std::ptr::eq(a.as_ptr(), o.as_ptr()));
 
-        if o.tag() == Type::Array {
-            // Safety: we know the size of mark_bitmap.
-            unsafe {
+        match index {
+            Some(index) => {
                 // No need to mark recursively on arrays if this one was
                 // already marked (e.g. because the same object was found
                 // in multiple places such as the stack and the result of
                 // a function call).
-                if !self.mark_bitmap.get_unchecked(index) {
-                    self.mark_bitmap.set_unchecked(index, true);
+                if !self.mark_bitmap[index] {
+                    self.mark_bitmap.set(index, true);
 
-                    // Safety: we already checked the type.
-                    for v in o.as_vec_unchecked() {
-                        self.mark(v);
+                    if o.tag() == Type::Array {
+                        // Safety: we already checked the type.
+                        for v in unsafe { o.as_vec_unchecked() } {
+                            self.mark(v, foreign);
+                        }
                     }
                 }
             }
-        } else {
-            unsafe {
-                // Safety: we know the size of mark_bitmap.
-                self.mark_bitmap.set_unchecked(index, true);
+            None => {
+                // This object is not managed by this collector, so it is never freed here.
+                // If it is an array it can still hold objects that are, so look inside (once).
+                if o.tag() == Type::Array && !foreign.contains(&o.as_ptr()) {
+                    foreign.push(o.as_ptr());
+                    // Safety: we already checked the type.
+                    for v in unsafe { o.as_vec_unchecked() } {
+                        self.mark(v, foreign);
+                    }
+                }
             }
         }
     }
